@@ -140,7 +140,7 @@ ADDED = {
     "C07": "Corpus charts are grown by two series and shrunk to one series in alternate rounds (authored c:idx orders, multi-plot charts). REUSE steps: one chart-data object extended and used again; reads through plot proxies kept across replace_data.",
     "C08": "The same chart-data object re-used after it was extended (replace_data and a second add_chart); corpus charts shrunk to one series. Time-zone-aware datetime categories.",
     "C09": "Driver toggles: a kept ancestor whose content is switched off and on (has_data_labels / has_title / has_legend / gridlines; fill.background() for colours) and the child re-accessed from it; None and inf/nan are out of domain for non-boolean properties; identical assignments repeated in sequences; a legend dragged in PowerPoint (edge-mode manual layout) as a fixture. Brightness on a colour that holds its luminance transforms twice. Toggles: the switch re-assigned the value it has must leave the child's properties alone. Rows for the marker and the line of a single point. Plot switches on XY / bubble / line / pie plots; gradient_angle = None; a presentation without p:sldSz (open finding). A getter that fails with an internal error on a corpus object of the row's kind is a violation (it was a skip).",
-    "C10": "Online half: 8 / 32 shards of histories in profile sat (targets saturated with minimal or randomly filled-in valid instances, choice members swapped) judged by M-INS (misplaced / excluded-by-sibling / inserted-outside-parent) and by the validated result of every op (out-of-order-after-op, duplicate c:dPt / c:dLbl per c:idx); hand-written adders are called with arguments from a table; change-to and group removers from parents holding every other member of the group; the repository's tests under the monitors. Unit api_removers: the API calls documented to remove or replace (brightness, TextFrame.clear, _Paragraph.clear) on parents where the kind stands several times.",
+    "C10": "Online half: 8 / 32 shards of histories in profile sat (targets saturated with minimal or randomly filled-in valid instances, choice members swapped) judged by M-INS (misplaced / excluded-by-sibling / inserted-outside-parent) and by the validated result of every op (out-of-order-after-op, duplicate c:dPt / c:dLbl per c:idx); hand-written adders are called with arguments from a table; change-to and group removers from parents holding every other member of the group; the repository's tests under the monitors. Unit api_removers: the API calls documented to remove or replace (brightness, TextFrame.clear, _Paragraph.clear) on parents where the kind stands several times. A directed unit assigns every boolean switch of the chart API the value it already has (and off-on sequences) on six chart families: the element it stands for occurs at most once afterwards and the part validates as before.",
     "C11": "Own and foreign enumeration members in the grid of enumerated attributes; every rejected value repeated on an attribute that already holds a value and through every parent's generated adder; equivalent lexical forms (percent / thousandths, universal measure / EMU, true / 1) must read alike; the repository's tests under the monitors. Strings in Python's number syntax ('+12345', '0x1234', '1_2345'); unit api_lexical: what each C09 row's assignment wrote is re-spelt in an equivalent schema-valid form (5pt / 0.1in, 50%, true) and read through the API, whatever route the reader takes. Zero-padded numbers among the equivalent forms (index look-ups by XPath string comparison: genuine defect, repaired cdb88002). Unit corpus_lexical: every corpus deck is traversed (C12's read-only traversal, all accessors) as it is and with its whole-number attributes zero-padded / booleans re-spelt; the readings must agree one by one. Unit defaults: every declared attribute default against the schema's default (55) or the standard's prose (text insets); ints beyond the range of a double. Huge finite floats and ints beyond a double in the grid. White space around booleans, enumeration tokens and hexBinary colours, both at the attribute descriptors and through the API; class-required attributes the schema defaults are read in their omitted form.",
     "C12": "Generated pre-states: orphaned jump targets, cell-linked chart titles (guarded reads followed), notes master referred to by notes slides only, half transforms; after saving, prefixes named by markup-compatibility attributes must stay declared and external relationship targets must equal the input's. An external relationship of the deck opened must still be in the straight save; every history with intermediate saves begins with a save before anything was read; eight manufactured decks (irregular names / ids, blank links) are inputs; the part graph expands every route to a shared part and compares which routes share one. Background objects of slides, layouts and masters obtained; pre-state foreign_guides (guides the preset does not define). Generated decks whose plot-level c:dLbls lack some of the optional switches or hold c:delete only.",
     "C13": "Manufactured decks (irregular slide names) as start decks, the saved zip checked for duplicate members and for the slides the deck already had; the layout gains a placeholder between two additions. Gapped relationship ids on the start decks. Step notes-old (notes for a slide the deck already had); the notes slides of the other slides and the saved slide ids are compared. hdr without a:xfrm and sldImg placeholders on layouts are generated again (they had been kept out).",
